@@ -427,6 +427,12 @@ def snapshot(obj):
             if v is None or hasattr(v, "shape")}
 
 
+# attributes that define the function an object evaluates to: bit-identical for untouched operands;
+# derived caches (covariance, log-determinants, mean, log-partition) may be legitimately recomputed and
+# are held to the properties' equality (rounding)
+DEFINING = ("Lambda", "nu", "ln_beta", "M", "b", "v", "g")
+
+
 def I_imm(obj, snap, where="", bitwise=True):
     """Attributes that were set before are unchanged (bit-for-bit for operands of constructive
     operations; to rounding after explicit cache-recomputing queries)."""
@@ -436,7 +442,7 @@ def I_imm(obj, snap, where="", bitwise=True):
             continue  # None -> value is a legal cache fill; coherence judged by I_coh
         if cur is None:
             raise Violation("I_imm.dropped", f"attribute {n} was reset to None", where=where, attr=n)
-        if bitwise:
+        if bitwise and n in DEFINING:
             cmp_bits("I_imm." + n, np.asarray(cur), sv[0], where=where, attr=n)
         elif n in ("ln_det_Sigma", "ln_det_Lambda", "lnZ", "ln_beta"):
             cmp_log("I_imm." + n, np.asarray(cur), sv[0], where=where, attr=n)
